@@ -5,6 +5,9 @@ COMMON_ASSUME = ['generators reach the behaviour a code change affects (correspo
 # the real runtime (goroutines, timers): never cached, its interleavings differ from run to run
 RUNTIME = {'name': 'runtime', 'quick_args': ['-n', '8'], 'thorough_args': ['-n', '150'], 'cache': False}
 
+# the prepared-proof validator on its own: every field swept (engine `proofs`)
+PROOFS = {'name': 'proofs', 'quick_args': ['-n', '3000'], 'thorough_args': ['-n', '40000']}
+
 PROPS = {
     'C06': {
         'engines': [{'name': 'quorum', 'quick_args': ['-n', '800'], 'thorough_args': ['-n', '12000']}],
@@ -40,27 +43,30 @@ PROPS = {
     },
     'C07': {
         'engines': [{'name': 'world', 'quick_args': ['-n', '70'], 'thorough_args': ['-n', '1200']},
-                    {'name': 'worldkf1', 'quick_args': ['-n', '25'], 'thorough_args': ['-n', '300']}],
+                    {'name': 'worldkf1', 'quick_args': ['-n', '25'], 'thorough_args': ['-n', '300']}, {'name': 'filter'}, PROOFS],
+        # "for exactly this instance": the instance of a NEW_VIEW's own header is checked by the raw-message filter only, so its findings are reported here too
+        'also_report': ('C17',),
         'corr_modules': ['Term'],
         'trusted_base': ['theorems in coq/props/C07.v about coq/theories/Term.v (proofs in TermFacts.v)'],
         'assumptions': COMMON_ASSUME + ['signature flags: s_ok of a received (header, sender) pair is what KeyManager.VerifyConsensusMessage returns for it', 'raw-message filter delivers only messages of the term height (C17)'],
         'notes': ['full statement refuted by known finding KF-1 (standalone PREPREPARE in a view above 0); proved theorem is the partial one'],
     },
     'C08': {
-        'engines': [{'name': 'world', 'quick_args': ['-n', '70'], 'thorough_args': ['-n', '1200']}, {'name': 'filter'}],
+        'engines': [{'name': 'world', 'quick_args': ['-n', '70'], 'thorough_args': ['-n', '1200']}, {'name': 'filter'}, PROOFS],
         'also_report': ('C17',),
         'corr_modules': ['Term'],
         'trusted_base': ['theorems in coq/props/C08.v about coq/theories/Term.v (proofs in TermFacts.v)'],
         'assumptions': COMMON_ASSUME + ['signature flags as in C07', 'membership = ids of the committee returned by Membership for the height'],
     },
     'C10': {
-        'engines': [{'name': 'world', 'quick_args': ['-n', '70'], 'thorough_args': ['-n', '1200']}],
+        'engines': [{'name': 'world', 'quick_args': ['-n', '70'], 'thorough_args': ['-n', '1200']},
+                    {'name': 'worldkf1', 'quick_args': ['-n', '25'], 'thorough_args': ['-n', '300']}],
         'corr_modules': ['Term'],
         'trusted_base': ['theorems in coq/props/C10.v about coq/theories/Term.v (proofs in TermFacts.v)'],
         'assumptions': COMMON_ASSUME + ['committee total weight < 2^64', 'one term per height (C13)'],
     },
     'C09': {
-        'engines': [{'name': 'world', 'quick_args': ['-n', '70'], 'thorough_args': ['-n', '1200']}],
+        'engines': [{'name': 'world', 'quick_args': ['-n', '70'], 'thorough_args': ['-n', '1200']}, PROOFS],
         'corr_modules': ['Term'],
         'trusted_base': ['theorems in coq/props/C09.v about coq/theories/Term.v (proofs in TermFacts.v)'],
         'assumptions': COMMON_ASSUME + ['committee total weight < 2^64', 'the node is a member of the committee of the height (otherwise it has no term)', 'sort.Slice on at most 12 votes is stable (Go uses insertion sort below 12 elements); ties between equal proof views are irrelevant to the theorems'],
@@ -110,7 +116,7 @@ PROPS = {
     },
     'C01': {
         'engines': [{'name': 'world', 'quick_args': ['-n', '70'], 'thorough_args': ['-n', '1200']},
-                    {'name': 'worldkf1', 'quick_args': ['-n', '25'], 'thorough_args': ['-n', '300']}],
+                    {'name': 'worldkf1', 'quick_args': ['-n', '25'], 'thorough_args': ['-n', '300']}, PROOFS],
         # agreement rests on "a correct member endorses one hash per view" (Own.E_unique, C10) and on "a vote carries the voter's lock" (C09): both kinds of finding are reported here too
         'also_report': ('C10', 'C09'),
         'corr_modules': ['Term'],
@@ -132,7 +138,7 @@ PROPS = {
                                         'the peer is configured with the same instance id and committee; total weight < 2^64; the committer is a member of the committee'],
     },
     'C04': {
-        'engines': [{'name': 'world', 'quick_args': ['-n', '70'], 'thorough_args': ['-n', '1200']}],
+        'engines': [{'name': 'world', 'quick_args': ['-n', '70'], 'thorough_args': ['-n', '1200']}, PROOFS],
         # a lock that lets a receiver skip ValidateBlockProposal must be a genuine prepared proof: the reference predicate for accepted messages is C08's
         'also_report': ('C08',),
         'corr_modules': ['Term'],
@@ -143,6 +149,8 @@ PROPS = {
     },
     'C05': {
         'engines': [{'name': 'live', 'quick_args': ['-n', '40'], 'thorough_args': ['-n', '800']}],
+        # the liveness argument rests on acceptance of honest output (C11, Live.v `accepted`) and on the lock being re-proposed (C09): such findings on the live worlds are reported here too
+        'also_report': ('C11', 'C09'),
         'corr_modules': ['Term'],
         'trusted_base': ['theorems in coq/props/C05.v about coq/theories/World.v and Term.v (proofs in LiveWorld.v, Live.v, Own.v, Accept.v)'],
         'assumptions': COMMON_ASSUME + ['PARTIAL: proved is the good-view half (members of quorum weight that joined a view commit its proposal when their PREPAREs, then COMMITs, are delivered with no election trigger in between) and the acceptance steps leading into it; view synchronisation through the base*2^view timeouts is NOT proved (the model has no clock) and is only searched for stalls by the live engine',
@@ -152,7 +160,7 @@ PROPS = {
         'notes': ['partial: see the header of coq/props/C05.v for the exact split'],
     },
     'C11': {
-        'engines': [{'name': 'world', 'quick_args': ['-n', '70'], 'thorough_args': ['-n', '1200']}],
+        'engines': [{'name': 'world', 'quick_args': ['-n', '70'], 'thorough_args': ['-n', '1200']}, PROOFS],
         'corr_modules': ['Term'],
         'trusted_base': ['theorems in coq/props/C11.v about coq/theories/Term.v (proofs in Accept.v, Own.v, TermFacts.v)'],
         'assumptions': COMMON_ASSUME + ['sender and receiver use the same committee, height and instance id',
